@@ -108,11 +108,11 @@ example : linesLen ['a', '\n', 'b'] = 2 ∧ linesLen ['a', '\n'] = 1 ∧ linesLe
 
 /-- `lines().list()` is `str::lines`: the raw segments re-assemble the string,
 each listed line is its segment with the terminator stripped (`stripEol`), and
-`len` counts exactly the listed lines. -/
+`len` counts exactly the listed lines, none of which contains a `\n`. -/
 theorem lines_list_spec (s : List Char) :
     linesList s = specLinesList s ∧ (rawLines s).flatten = s ∧
-    (linesList s).length = linesLen s :=
-  ⟨rfl, Strings.rawLines_flatten s, rfl⟩
+    (linesList s).length = linesLen s ∧ ∀ l ∈ linesList s, '\n' ∉ l :=
+  ⟨rfl, Strings.rawLines_flatten s, rfl, Strings.strLines_no_nl s⟩
 
 example : linesList ['a', 'b', '\r', '\n', 'c', '\n', '\n', 'x', '\r'] =
     [['a', 'b'], ['c'], [], ['x', '\r']] := by decide
